@@ -11,7 +11,7 @@ from .common import DT, LX, PE, PL, PU, ckey
 
 P = "C01"
 EXPLANATION = (
-    "Static rules D1.1-D1.10 (DESIGN.md section 5, C01) on the plumbing every read depends on: both reply-splitting sites use the "
+    "Static rules D1.1-D1.11 (DESIGN.md section 5, C01) on the plumbing every read depends on: both reply-splitting sites use the "
     "same structure marker (A0 02, from the specification) and header lengths 4/2 and parse_value re-prepends exactly the header "
     "it removed; multi-service demultiplexing constants (padding = offset of the service byte in the connected reply parser, "
     "count at 0, offsets from 2, UINT entries, consecutive start/end pairing, positional pairing with the requests); decoder "
@@ -439,3 +439,70 @@ def d1_3(ctx):
     from .C04 import d4_5
 
     d4_5(ctx)
+
+
+@rule(P, "D1.11", "T-WITNESS", floor=20)
+def d1_11(ctx):
+    """_parse_tag_request folded on one witness request per form (sa/miniinterp.py; the tag-definition look-up is a witness):
+    plain tags, `{n}`, `[i]`, members, program scope, `.bit` on integers, BOOL-array elements and ranges (read and write
+    direction).  The record must carry the controller tag to address, the element count to request, the bit index and the
+    BOOL count that an independent reading of the request gives."""
+    from ..miniinterp import Obj, run_function
+
+    lx = ctx.model.cls(f"{LX}:LogixDriver")
+    fn = lx.methods["_parse_tag_request"]
+    p_tag = fn.args.args[1].arg
+    p_rw = fn.args.args[2].arg if len(fn.args.args) > 2 else "rw"
+    dint, dword, udt = {"data_type": "DINT", "tag_type": "atomic"}, {"data_type": "DWORD", "tag_type": "atomic"}, {"data_type": {"name": "MyUdt"}, "tag_type": "struct"}
+    infos = {"d": dint, "arr": dint, "flags": dword, "udt": udt, "udtarr": udt, "Program:Main.d": dint, "Program:Main.flags": dword}
+
+    def hook(call, env, it):
+        if attr_path(call.func) == "self._get_tag_info":
+            base = it.ev(call.args[0], env)
+            attrs = it.ev(call.args[1], env)
+            hook.seen.append((base, list(attrs)))
+            from ..miniinterp import Raise
+
+            stripped = base.split("[")[0]
+            if stripped not in infos:
+                raise Raise("KeyError")
+            base = stripped
+            if attrs:
+                return {"data_type": "DWORD", "tag_type": "atomic"} if attrs[-1].startswith("bits") else dint
+            return infos[base]
+        return UNKNOWN
+
+    #          request            rw   plc_tag          elements bit   bool_elements  lookup
+    W = [
+        ("d", "r", "d", 1, None, None, ("d", [])), ("d{5}", "r", "d", 5, None, None, ("d", [])), ("arr[3]", "r", "arr[3]", 1, None, None, ("arr[3]", [])),
+        ("arr[3]{10}", "r", "arr[3]", 10, None, None, ("arr[3]", [])), ("d.5", "r", "d", 1, 5, None, ("d", [])), ("d.31", "w", "d", 1, 31, None, ("d", [])),
+        ("udt.member", "r", "udt.member", 1, None, None, ("udt", ["member"])), ("udt.member.3", "r", "udt.member", 1, 3, None, ("udt", ["member"])),
+        ("udtarr[2].member{4}", "r", "udtarr[2].member", 4, None, None, ("udtarr[2]", ["member"])),
+        ("Program:Main.d", "r", "Program:Main.d", 1, None, None, ("Program:Main.d", [])), ("Program:Main.d.7", "r", "Program:Main.d", 1, 7, None, ("Program:Main.d", [])),
+        ("flags[5]", "r", "flags[0]", 1, 5, None, ("flags[5]", [])), ("flags[37]", "r", "flags[0]", 2, 37, None, ("flags[37]", [])), ("flags[37]", "w", "flags[1]", 2, 37, None, ("flags[37]", [])),
+        ("flags[0]{64}", "r", "flags[0]", 2, 0, 64, ("flags[0]", [])), ("flags[20]{20}", "r", "flags[0]", 2, 20, 20, ("flags[20]", [])), ("flags[32]{40}", "w", "flags[1]", 3, 32, 40, ("flags[32]", [])),
+        ("flags[3]{1}", "r", "flags[0]", 1, 3, None, ("flags[3]", [])), ("flags{96}", "r", "flags", 3, None, 96, ("flags", [])), ("flags", "r", "flags", 1, None, None, ("flags", [])),
+        ("udt.bits[40]", "r", "udt.bits[0]", 2, 40, None, ("udt", ["bits[40]"])),
+        ("nosuch", "r", "RequestError", None, None, None, None), ("d{x}", "r", "RequestError", None, None, None, None),
+    ]
+    for req, rw, plc, n, bit, bools, look in W:
+        hook.seen = []
+        kind, res = run_function(ctx, lx.module, fn, {"self": Obj(), p_tag: req, p_rw: rw}, call_hook=hook, deep=False)
+        key = ckey(f"{lx.key}._parse_tag_request", f"witness:{req}/{rw}")
+        if kind == "unknown":
+            ctx.undecided(key, fn, f"_parse_tag_request not foldable on `{req}`: {res}")
+            continue
+        if plc == "RequestError":
+            ctx.check(kind == "raise" and res == "RequestError", key, fn, f"`{req}` is refused with RequestError", f"`{req}` gives {kind} {res!r} instead of RequestError")
+            continue
+        if kind != "return" or not isinstance(res, dict):
+            ctx.violation(key, fn, f"`{req}` ({rw}) gives {kind} {res!r} instead of a request record")
+            continue
+        got = (res.get("plc_tag"), res.get("elements"), res.get("bit"), res.get("bool_elements"))
+        diffs = [f"{k}={g!r} (expected {w!r})" for k, g, w in zip(("plc_tag", "elements", "bit", "bool_elements"), got, (plc, n, bit, bools)) if g != w]
+        if look is not None and hook.seen and hook.seen[0] != (look[0], look[1]):
+            diffs.append(f"definition looked up as {hook.seen[0]} (expected {look})")
+        if res.get("user_tag") != req.split("{")[0]:
+            diffs.append(f"user_tag={res.get('user_tag')!r}")
+        ctx.check(not diffs, key, fn, f"`{req}` ({rw}) -> {plc} x{n}" + (f" bit {bit}" if bit is not None else "") + (f" bools {bools}" if bools else ""),
+                  f"request `{req}` ({'read' if rw == 'r' else 'write'}) is parsed as {diffs}: another element / count / bit is requested than asked for", witness=req)
